@@ -43,11 +43,21 @@ def __call__(self, T, P=None):
 
 VolumeSolid.__call__ = __call__
 
-# Shallow copy
+# Shallow copy; the containers that `add_method`, `add_tabular_data` and 
+# `add_correlation` update in place are copied so that adding a method to a copy 
+# does not replace the method of the original (both are named 'USER_METHOD' by default)
+_method_containers = ('local_methods', 'all_methods', 'T_limits', 
+                      'tabular_data', 'tabular_data_interpolators',
+                      'correlations', 'extrapolation_coeffs')
+
 def copy(self):
     cls = type(self)
     copy = cls.__new__(cls)
-    copy.__dict__.update(self.__dict__)
+    dct = copy.__dict__
+    dct.update(self.__dict__)
+    for name in _method_containers:
+        container = dct.get(name)
+        if container is not None: dct[name] = container.copy()
     return copy
 
 TDependentProperty.copy = copy
